@@ -134,7 +134,26 @@ def compare(src, prog, globals0, index_names, pattern, known):
         for k in iu:
             if not same_value(iu[k], ru[k]):
                 raise Violation('final global %s = %r, the source-level reading gives %r' % (k, _short(iu[k]), _short(ru[k])), detail, 'globals-value')
+    _runs[0] += 1
+    if _runs[0] % 4 == 0:
+        # a host that supplies no globals: every such run starts from empty globals, so two runs in one process are the same run (here the
+        # program usually stops at its first host call - what happens up to there must not depend on what an earlier run left behind)
+        seen = []
+        for _ in range(2):
+            log2 = []
+            try:
+                r2 = ('ok', impl.bs.execute_script(model, {'logFn': lambda m, log2=log2: log2.append(m), 'maxStatements': MAX_STATEMENTS}))
+            except impl.bs.RuntimeError as e:
+                r2 = ('runtime-error', str(e))
+            except Exception as e:  # pylint: disable=broad-except
+                r2 = ('host-exception', '%s: %s' % (type(e).__name__, e))
+            seen.append((r2[0], _short(r2[1]), log2))
+        if seen[0] != seen[1]:
+            raise Violation('two runs without caller-supplied globals differ: %r then %r' % (seen[0][:2], seen[1][:2]), detail, 'no-globals-runs-differ')
     return expected, ref.events, wc
+
+
+_runs = [0]
 
 
 def _short(v):
